@@ -98,6 +98,10 @@ pub fn probe(name: &'static str) {
   PROBES.with(|f| *f.borrow_mut().entry(name).or_insert(0) += 1);
 }
 
+pub fn probe_count(name: &str) -> u64 {
+  PROBES.with(|f| f.borrow().get(name).copied().unwrap_or(0))
+}
+
 pub fn take_faults() -> BTreeMap<&'static str, u64> {
   FAULTS.with(|f| std::mem::take(&mut *f.borrow_mut()))
 }
